@@ -11,7 +11,7 @@ AGENT_RW = {'imports': {
 ENGINES = [
     {'name': 'mc', 'path': 'mc tools/mcrewrite harness/agentmc', 'serves_properties': ['C10', 'C11'],
      'kind_free_text': 'hand-written controlled scheduler + stateless/state-pruned DFS explorer for Go channel code, bound to the real source by an AST rewriter applied through go build -overlay'},
-    {'name': 'seqx', 'path': 'harness/c01 harness/x', 'serves_properties': ['C01'],
+    {'name': 'seqx', 'path': 'harness/c01 harness/c02 harness/c14 harness/x', 'serves_properties': ['C01', 'C02', 'C14'],
      'kind_free_text': 'explicit-state BFS over operation sequences on the real store.Dir with a reference model (hand-written, Go)'},
 ]
 
@@ -27,6 +27,30 @@ CHECKS = {
                 'near-miss passwords are enumerated exhaustively per base password and parameter set.',
         'note': 'Small alphabets (2 users, <=5 passwords, 3 cheap parameter sets) stand for all; sequential execution only; the reference model is the property statement.',
         'parts': [GoBin('seqx', 'harness/c01')],
+    },
+    'C02': {
+        'level': 'exploration',
+        'engine': 'seqx',
+        'technique': 'bounded exhaustive input enumeration (all short strings over a separator alphabet; every single mutation / every truncation length of valid records) against an independent decoder and digest recomputation',
+        'text': 'Every enumerated file content is written by the harness and judged on the real store.Dir: a success must be explained by an independent recomputation of the digest; every other content must fail cleanly and follow the schema rules for unsupported files; independently produced records must authenticate.',
+        'note': 'Inputs outside the enumerated alphabets/mutations are not covered; hangs would show up as a tool timeout, not as a verdict.',
+        'parts': [GoBin('inputs', 'harness/c02')],
+    },
+    'C14': {
+        'level': 'exploration',
+        'engine': 'seqx',
+        'technique': 'exhaustive enumeration over a grid of generated configuration files x passwords x write paths with independent digest recomputation',
+        'text': 'For every configuration of the grid (all combinations of the stated scrypt/argon2id parameter values incl. defaulted r/p, multi-set stores with every default) every record written by add/update is parsed against the schema and its digest recomputed independently from the YAML numbers; salts must be pairwise distinct over all writes.',
+        'note': 'Parameter values are limited to cheap ones; x/crypto primitives are the trusted reference; salt freshness is only checkable as distinctness.',
+        'parts': [GoBin('records', 'harness/c14')],
+    },
+    'C18': {
+        'level': 'exploration',
+        'engine': 'seqx',
+        'technique': 'exhaustive enumeration of configuration documents (every single-field mutation of valid configurations, numeric edge grids) vs. a reference predicate; accepted sets exercised in worker subprocesses',
+        'text': 'Every document of the enumeration is loaded with the real loader and compared with a three-valued reference predicate derived from the statement; every accepted document is used (add + authenticate under each set) in a subprocess so that crashes are observed.',
+        'note': 'Reload (SIGHUP) schedules are explored by the mc part; numeric values beyond the sandbox resources are excluded (stated in the evidence).',
+        'parts': [GoBin('loader', 'harness/c18')],
     },
     'C11': {
         'level': 'model_checking',
